@@ -219,10 +219,30 @@ and gen_loop' st env d : expr =
     | _ -> EFor (EAssign (EVar (n_of_int i), ei 0), cond, incr, EBlock (body_items ())) in
   EBlock [IVar (n_of_int i, ei 0); IExpr loop]
 
-let mk_fdef name params body =
-  FDef (n_of_int name, List.map (fun (x, v) -> ((n_of_int x, v), TInt)) params, TInt, body, [], None)
+let mk_fdef ?(catches = ([], None)) name params body =
+  FDef (n_of_int name, List.map (fun (x, v) -> ((n_of_int x, v), TInt)) params, TInt, body,
+        fst catches, snd catches)
 
 let env_of params = List.rev_map (fun (x, v) -> { n = x; t = TInt; var = v; ctr = false }) params
+
+(* level 5: catch clauses.  A clause sees the parameters only; most clauses name division_by_zero
+   (the only fault of the fragment), some another exception (never matches: the next clause / the
+   caller gets the fault), some clause bodies fault themselves *)
+let gen_catches st params : (exn * item list) list * item list option =
+  if st.level < 5 || not (Rng.pct st.rng 55) then ([], None)
+  else begin
+    let env = env_of params in
+    let saved = st.fuelv in
+    st.fuelv <- 0;
+    let body () = gen_block st env TInt (Rng.range st.rng 1 2) (Rng.range st.rng 0 2) in
+    let nnamed = Rng.range st.rng 0 2 in
+    let named = List.init nnamed (fun _ ->
+        let ex = Rng.weighted st.rng [70, ExDivision; 10, ExIndexOob; 10, ExNil; 10, ExArrSize] in
+        (ex, body ())) in
+    let call = if nnamed = 0 || Rng.pct st.rng 40 then Some (body ()) else None in
+    st.fuelv <- saved;
+    (named, call)
+  end
 
 let gen_main st : fdef * int =
   let np = Rng.range st.rng 1 3 in
@@ -231,7 +251,8 @@ let gen_main st : fdef * int =
   let d = Rng.range st.rng 1 4 in
   st.acc <- 0; st.mult <- 1; st.limit <- 4000;
   let body = gen_block st env TInt d (Rng.range st.rng 0 5) in
-  (mk_fdef 0 params body, np)
+  let catches = gen_catches st params in
+  (mk_fdef ~catches 0 params body, np)
 
 (* ---- level 3: helper functions ------------------------------------------------------------- *)
 
@@ -241,7 +262,8 @@ let gen_plain st name : fdef * finfo =
   let params = List.init np (fun _ -> let x = fresh st in (x, Rng.pct st.rng 25)) in
   st.acc <- 1; st.mult <- 1; st.limit <- 150; st.fuelv <- (if Rng.pct st.rng 30 then 1 else 0);
   let body = gen_block st (env_of params) TInt (Rng.range st.rng 1 3) (Rng.range st.rng 0 3) in
-  (mk_fdef name params body, { fn = name; fvars = List.map snd params; measure = None; cost = st.acc })
+  let catches = gen_catches st params in
+  (mk_fdef ~catches name params body, { fn = name; fvars = List.map snd params; measure = None; cost = st.acc })
 
 (* f(n, ..) { (n <= 0) ? base : comb(n, f(n - 1, ..)) }: the self call is NOT in tail position *)
 let gen_rec st name : fdef * finfo =
@@ -268,7 +290,8 @@ let gen_rec st name : fdef * finfo =
     else ECond (cond, EBlock [IExpr base], EBlock [IExpr comb]) in
   let pre = if Rng.pct st.rng 25 then [ILet (n_of_int (fresh st), small ())] else [] in
   let m = Rng.pick st.rng [3; 10; 40; 120; 300] in
-  (mk_fdef name params (pre @ [IExpr last]),
+  let catches = if Rng.pct st.rng 50 then gen_catches st extra else ([], None) in
+  (mk_fdef ~catches name params (pre @ [IExpr last]),
    { fn = name; fvars = List.map snd params; measure = Some m; cost = (m + 1) * st.acc })
 
 (* f(n, acc, ..) { …; (n <= 0) ? acc' : f(n - 1, acc'', ..) }: the self call is in tail position
